@@ -400,8 +400,21 @@ def apply_rewrites(text, rewrites, counts, log):
     return text
 
 
+def rule_R1f(text, counts):
+    """format!(..) that survives R1 (i.e. a message that is returned, not logged) => vp_format(): an opaque String"""
+    while True:
+        m_ = mask(text)
+        m = re.search(r"\bformat!\s*\(", m_)
+        if not m:
+            return text
+        c = match_close(m_, m.end() - 1)
+        text = text[:m.start()] + "vp_format()" + text[c + 1:]
+        counts["R1"] = counts.get("R1", 0) + 1
+
+
 def auto_rules(text, mode, counts):
     text = rule_R1(text, counts)
+    text = rule_R1f(text, counts)
     text = rule_R2(text, counts)
     text = rule_R5(text, counts)
     if mode == "refuse":
